@@ -1274,7 +1274,8 @@ class OperatorVectorSum(Operator):
     def _call(self, x, out=None):
         """Evaluate the residual at ``x`` and write to ``out`` if given."""
         if out is None:
-            out = self.operator(x)
+            # No in-place addition, the result may share memory with `x`
+            return self.operator(x) + self.vector
         else:
             self.operator(x, out=out)
 
